@@ -36,6 +36,7 @@ type Scenario struct {
 	Completion S        `json:"completion"` // value of GO_FLAGS_COMPLETION ("" = unset)
 	HasPrelude bool     `json:"hasPrelude"` // a first ParseArgs(prelude) runs on the same parser before the judged call
 	Prelude    []S      `json:"prelude"`
+	Repeat     int      `json:"repeat"`        // C15: run the scenario this many times on fresh parsers; all observations must coincide
 	Tags       []string `json:"tags"`          // what the generator intended (evidence / sampling only)
 	Alt        []S      `json:"alt,omitempty"` // C02: the same vector with one occurrence respelled
 	AltInfo    *AltInfo `json:"altInfo,omitempty"`
@@ -75,6 +76,7 @@ type Obs struct {
 	Stderr    int     `json:"stderr"`
 	Untouched bool    `json:"untouched"`
 	SetupErr  string  `json:"setupErr"`
+	Distinct  int     `json:"distinct"` // number of distinct observations over the repetitions (1 when not repeated)
 }
 
 func poptsOf(names []string) flags.Options {
